@@ -30,7 +30,7 @@ MkXml(dl, gl, cut) ==
 Gaps(n) == [1..n -> {0, 1}]
 XmlProfilesFor(dl) == {MkXml(dl, g, 0) : g \in Gaps(Len(dl) + 1)}
 XmlCutProfilesFor(dl, gl) == {MkXml(dl, gl, c) : c \in 1..(SumTo(dl, Len(dl)) + SumTo(gl, Len(dl) + 1))}
-cXmlQuick == XmlProfilesFor(<<4>>) \cup XmlProfilesFor(<<4, 5>>)
+cXmlQuick == XmlProfilesFor(<<4>>) \cup XmlProfilesFor(<<4, 5>>) \cup {MkXml(<<8>>, <<0, 0>>, 0), MkXml(<<8>>, <<1, 1>>, 0)}     \* (8 bytes: <b>1</b>, a value the cast forms turn into a number)
 cXmlThorough == XmlProfilesFor(<<4>>) \cup XmlProfilesFor(<<4, 5>>) \cup XmlProfilesFor(<<4, 4, 5>>) \cup {MkXml(<<7, 4>>, <<2, 2, 0>>, 0)}
 cXmlHandler == {MkXml(<<4, 5>>, <<0, 1, 0>>, 0), MkXml(<<4, 5>>, <<1, 0, 1>>, 0), MkXml(<<4>>, <<0, 0>>, 0)}
 cXmlNeg == {MkXml(<<4, 5>>, <<0, 1, 0>>, 0)}
